@@ -81,6 +81,7 @@ def run(chk):
             if not cons:
                 raise AnalysisError('C01.R1', B.qual, f'no path is consistent with call {b}, slot {slot}')
             for p in cons:
+                chk.focus(p, pe)
                 k = B.kinds[id(p)]
                 if slot == 0:
                     good = k == 'ILLEGAL'
@@ -139,6 +140,7 @@ def run(chk):
             for p in B.accept:
                 if not B.consistent(p, pe, b):
                     continue
+                chk.focus(p, pe)
                 d = B.mask_delta(p, pe)
                 if d is None:
                     raise AnalysisError('C01.R4', B.qual, f'stores to the vector on path `{p.describe()[-80:]}` are not evaluable for {b}')
@@ -187,6 +189,7 @@ def run(chk):
                     for p in ongoing:
                         if not B.consistent(p, pe, b):
                             continue
+                        chk.focus(p, pe)
                         d = B.mask_delta(p, pe)
                         ap, bp = B.post(p, r.active, pe), B.post(p, r.last_bidder, pe)
                         xp, xxp = B.post(p, r.x, pe), B.post(p, r.xx, pe)
@@ -216,7 +219,8 @@ def run(chk):
     # ---- R8: who may write the auction state -----------------------------------------------------------------
     from .common import writers_of
     state_attrs = [r.active, r.mask, r.x, r.xx, r.history, r.seat_history, r.last_bid, r.last_bidder, r.table]
-    allowed = {'__init__', 'take_bid'}
+    from .common import writer_closure
+    allowed = {m for _, m in writer_closure(chk.repo, 'BiddingPhase', {'__init__', 'take_bid'})}
     n = 0
     for meth, fn in B.ci.methods.items():
         for (attr, node) in writers_of(fn, {a.split('.', 1)[1] for a in state_attrs}):
